@@ -198,3 +198,39 @@ func H_C22_stalled_query_starves_no_one() {
 	vpAssert(ra.Close() == nil, "C20: Close returned an error")
 	vpAssert(len(b.querySemaphore) == 0, "C21: budget not restored")
 }
+
+// The same with many single-block files: the block-job queue (16) and the cursor buffer (4) fill,
+// so the file worker itself blocks while dispatching — it must not hold a slot there either.
+//
+//vp:override (*bs.BloomSearchEngine).evaluateBloomFilters=vpQueryVerdictStub
+//vp:override (*bs.blockFilterCursor).filtersFor=vpQueryFiltersFor
+//vp:override (*bs.blockFilterCursor).release=vpCursorReleaseNop
+//vp:override bs.readPooledBlockRowData=vpReadRowDataOK
+//vp:override (*bs.compiledRowMatcher).matchRowBytes=vpMatchAll
+//vp:override bs.materializeRow=vpMaterializeOK
+//vp:maxsteps 3000000
+//vp:bounds the real Query (all goroutines), MaxQueryConcurrency 1 or 2, 28 files of one matching one-row block each, consumer never reads; then a second query over the same files read to completion
+func H_C22_stalled_query_over_many_files_starves_no_one() {
+	w := vpNewWorld()
+	w.openAlways = true
+	const nFiles = 28
+	vpQuerySetupFixed(w, nFiles, 1)
+	conc := 1 + nondetChoice(2)
+	b := vpQueryEngine(w, conc)
+	vpScanData = []byte{2, 0, 0, 0, '{', '}'}
+	ra, err := b.Query(vpNewCtx(nil), NewQuery().Field("f").Build())
+	vpAssert(err == nil, "C20: Query failed")
+	vpQuiesce()
+	vpAssert(len(ra.rowChan) == queryRowBatchBuffer, "harness: query A did not fill its cursor buffer")
+	vpAssert(len(b.querySemaphore) == 0, "C22: a query whose consumer stopped reading keeps query slots (a worker is blocked while holding one)")
+	rb, err := b.Query(vpNewCtx(nil), NewQuery().Field("f").Build())
+	vpAssert(err == nil, "C20: Query failed")
+	got := 0
+	for rb.Next() {
+		got++
+		vpAssert(got <= nFiles, "C02: more rows than stored")
+	}
+	vpAssert(rb.Err() == nil && got == nFiles, "C22: a query did not complete while another query's consumer is stalled")
+	vpAssert(ra.Close() == nil, "C20: Close returned an error")
+	vpAssert(len(b.querySemaphore) == 0, "C21: budget not restored")
+}
